@@ -15,6 +15,8 @@ class PDAObjectCreator:
             self._inverse_stack_symbol[terminal] = None
         for variable in variables:
             self._inverse_stack_symbol[variable] = None
+        self._variable_values = {str(variable.value)
+                                 for variable in variables}
 
     def get_symbol_from(self, symbol):
         """Get a symbol"""
@@ -35,6 +37,10 @@ class PDAObjectCreator:
             value = str(stack_symbol.value)
             if isinstance(stack_symbol, cfg.Terminal):
                 value = "#TERM#" + value
+                # The stack symbol of a terminal must differ from the
+                # stack symbols of the variables
+                while value in self._variable_values:
+                    value = "#" + value
             temp = pda.StackSymbol(value)
             self._inverse_stack_symbol[stack_symbol] = temp
             return temp
